@@ -2,6 +2,7 @@ SPECIFICATION Spec
 CONSTANTS
   Seed = 0
   Multi = FALSE
+  Wide = FALSE
   Quick = TRUE
 INVARIANT LabelIndependent
 INVARIANT TwinsAmbiguous
